@@ -160,10 +160,19 @@ def _absolute(test, var_names):
 def r2_parameters(ctx):
     corpus = ctx.corpus
     ad = corpus.module('adapters')
+    # the selectable adapters: the registry list when there is one, otherwise every concrete class of the module that
+    # implements one of the role interfaces (registry built as a mapping, by a decorator, ...)
     reg = ad.assigns.get('_adapters')
-    if not isinstance(reg, ast.List):
-        raise AnalysisError('C17.R2: adapter registry `_adapters` not found')
-    names = [e.id for e in reg.elts if isinstance(e, ast.Name)]
+    if isinstance(reg, ast.List):
+        names = [e.id for e in reg.elts if isinstance(e, ast.Name)]
+    else:
+        names = []
+        for cn, ci_ in ad.classes.items():
+            bases = [c.name for c in corpus.mro(ci_)][1:]
+            if cn.startswith('_') or cn in ROLE_OPS or cn.endswith(('Mixin', 'Adapter')):
+                continue
+            if any(b in ROLE_OPS for b in bases):
+                names.append(cn)
     ctx.floor('C17.R2', 'registered adapters', len(names), 5)
     # role checks / exercise before the upload (in init's call chain)
     ic = corpus.func('repository', 'Repository._instantiate_config')
